@@ -299,6 +299,11 @@ def deep_histories(rng, n, depth):
         glue = rng.choice([1, 1, 0])
         X = rng.choice([[0.0, 1.0], [0.0, 0.5, 1.0], [0.0, 1.0, 2.0, 3.0, 4.0]])
         T = rng.choice([[0.0, 1.0], [0.0, 1.0, 2.0]])
+        if i % 3 == 1:
+            # the same geometry at a small scale (a square of side 2^-6, final time 2^-12 ...): absolute constants hidden
+            # in the code (tolerances, rounding of keys) stop being harmless; dyadic factors keep the arithmetic exact
+            sx, st = 2.0**-rng.choice([5, 6, 8]), 2.0**-rng.choice([10, 12, 14])
+            X, T = [x * sx for x in X], [t * st for t in T]
         tt = rng.choice([T[0], T[-1], T[-1], (T[0] + T[-1]) / 2])
         xx = rng.choice([X[0], X[-1], X[len(X) // 2]])
         mode = rng.choice(['t', 't', 's', 'ts'])
